@@ -388,20 +388,21 @@ func genC14() {
 					ctxOK = true
 				}
 			}
-			// shared options: New receives a clone of the options plus WithArch(arch)
-			if l, _ := c14FindAssign(r.Body, c14TextIs("slices.Clone("+optsParam+")")); len(l) == 1 && l[0] != "" && optsParam != "" {
-				b := l[0]
-				_, app := c14FindAssign(r.Body, c14TextIs("append("+b+", WithArch("+v+"))"))
-				passed := false
+			// shared options: New receives a FRESH copy of the options (slices.Clone, or append onto a clone / nil / an
+			// empty literal) followed by WithArch(arch) and nothing else, whatever the locals are called
+			if optsParam != "" && v != "" {
+				env := c14RunSliceAssigns(r.Body.List, map[string]bool{optsParam: true})
 				ast.Inspect(r.Body, func(n ast.Node) bool {
-					if c, ok := n.(*ast.CallExpr); ok && c14Text(c.Fun) == "New" && len(c.Args) == 3 && c.Ellipsis.IsValid() && c14Ident(c.Args[2]) == b {
-						passed = true
+					c, ok := n.(*ast.CallExpr)
+					if !ok || c14Text(c.Fun) != "New" || len(c.Args) != 3 || !c.Ellipsis.IsValid() {
+						return true
+					}
+					got := c14SliceOf(c.Args[2], env, map[string]bool{optsParam: true})
+					if got.known && got.fresh && len(got.elems) == 2 && got.elems[0] == "<"+optsParam+">..." && got.elems[1] == "WithArch("+v+")" {
+						optsOK = true
 					}
 					return true
 				})
-				if app != nil && len(app.Lhs) == 1 && c14Ident(app.Lhs[0]) == b && passed {
-					optsOK = true
-				}
 			}
 		}
 		if !ctxOK {
@@ -409,7 +410,7 @@ func genC14() {
 		}
 		add("contexts-keyed-by", "the architecture")
 		if !optsOK {
-			fail("%s: NewMultiArch: every context is not built from `slices.Clone(%s)` + WithArch(arch)", multi, optsParam)
+			fail("%s: NewMultiArch: every context is not built from a fresh copy of %s + WithArch(arch)", multi, optsParam)
 		}
 		add("context-options", "clone of the shared options + WithArch(arch)")
 		// ByArch: `for arch, bc := range m.Contexts { apks[KEY] = bc.apk }`
@@ -467,7 +468,7 @@ func genC14() {
 	rw := findFunc(impl, "APK", "ResolveWorld")
 	if rw != nil {
 		recv := c08Recv(rw)
-		own := ""       // the identifier bound to recv.GetRepositoryIndexes(...)
+		own := ""        // the identifier bound to recv.GetRepositoryIndexes(...)
 		resolverOf := "" // the argument of NewPkgResolver
 		resolverVar := ""
 		for _, st := range rw.Body.List {
@@ -742,25 +743,11 @@ func genC14() {
 					continue
 				}
 				pv := c14Ident(rpk.Value)
-				// body: versions, ok := allowed[pkg.Name]; if !ok { dq[..] = msg; continue }; if _, ok := versions[pkg.Version]; !ok { dq[..] = msg }
-				if len(rpk.Body.List) != 3 {
-					fail("%s: disqualifyDifference: the body of the marking loop is not lookup-by-name / absent-name / absent-version", repoGo)
-					continue
-				}
-				look, ok0 := rpk.Body.List[0].(*ast.AssignStmt)
-				noName, ok1b := rpk.Body.List[1].(*ast.IfStmt)
-				noVer, ok2 := rpk.Body.List[2].(*ast.IfStmt)
-				if !ok0 || !ok1b || !ok2 || len(look.Lhs) != 2 || len(look.Rhs) != 1 || c14Text(look.Rhs[0]) != iv+"["+pv+".Name]" {
-					fail("%s: disqualifyDifference: the comparison does not start with `versions, ok := %s[%s.Name]`", repoGo, iv, pv)
-					continue
-				}
-				vs, okv := c14Ident(look.Lhs[0]), c14Ident(look.Lhs[1])
-				message := func(st ast.Stmt) bool { // dq[pkg.RepositoryPackage] = fmt.Sprintf(FMT, pkg.Filename(), otherArch)
-					as, ok := st.(*ast.AssignStmt)
-					if !ok || len(as.Lhs) != 1 || len(as.Rhs) != 1 || c14Text(as.Lhs[0]) != dq+"["+pv+".RepositoryPackage]" {
-						return false
-					}
-					call, ok := as.Rhs[0].(*ast.CallExpr)
+				// body: a package is marked (dq[pkg.RepositoryPackage] = <message>) exactly when its name is absent from
+				// `allowed` or its version is absent under the name - in whichever control-flow spelling: the body is
+				// interpreted on the three cases name-absent / version-absent / both-present
+				message := func(rhs ast.Expr) bool { // fmt.Sprintf(FMT, pkg.Filename(), otherArch)
+					call, ok := rhs.(*ast.CallExpr)
 					if !ok || c14Text(call.Fun) != "fmt.Sprintf" || len(call.Args) != 3 || c14Text(call.Args[1]) != pv+".Filename()" || c14Ident(call.Args[2]) != ik {
 						return false
 					}
@@ -774,18 +761,13 @@ func genC14() {
 					parts = strings.Split(f, "%q")
 					return true
 				}
-				good := c14Text(noName.Cond) == "!"+okv && noName.Init == nil && noName.Else == nil && len(noName.Body.List) == 2 && message(noName.Body.List[0])
-				if good {
-					b, isB := noName.Body.List[1].(*ast.BranchStmt)
-					good = isB && b.Tok == token.CONTINUE && b.Label == nil
+				noName, noVer, both, understood, why := c14MarkCases(rpk.Body.List, iv, pv, dq, message)
+				if !understood {
+					fail("%s: disqualifyDifference: the body of the marking loop is not understood (%s); expected lookups `%s[%s.Name]` / `<versions>[%s.Version]`, boolean tests and `%s[%s.RepositoryPackage] = fmt.Sprintf(<two %%q>, %s.Filename(), %s)`", repoGo, why, iv, pv, pv, dq, pv, pv, ik)
+					continue
 				}
-				if good {
-					ia, isA := noVer.Init.(*ast.AssignStmt)
-					good = isA && len(ia.Lhs) == 2 && len(ia.Rhs) == 1 && c14Text(ia.Rhs[0]) == vs+"["+pv+".Version]" && c14Text(noVer.Cond) == "!"+c14Ident(ia.Lhs[1]) &&
-						noVer.Else == nil && len(noVer.Body.List) == 1 && message(noVer.Body.List[0])
-				}
-				if !good {
-					fail("%s: disqualifyDifference: expected `if !ok { dq[pkg.RepositoryPackage] = fmt.Sprintf(<two %%q>, pkg.Filename(), %s); continue }` and `if _, ok := versions[pkg.Version]; !ok { <the same> }`", repoGo, ik)
+				if !noName || !noVer || both {
+					fail("%s: disqualifyDifference: a package must be marked exactly when its name is absent from the sibling or its version is absent under the name; the loop body marks: name absent=%v, version absent=%v, both present=%v", repoGo, noName, noVer, both)
 					continue
 				}
 				allPairs = true
@@ -810,10 +792,8 @@ func genC14() {
 		if dg.Type.Params != nil && len(dg.Type.Params.List) == 2 && len(dg.Type.Params.List[1].Names) == 1 {
 			byArch = dg.Type.Params.List[1].Names[0].Name
 		}
-		ixs := ""
-		if l, _ := c14FindAssign(dg.Body, c14TextIs("slices.Concat(slices.Collect(maps.Values("+byArch+"))...)")); len(l) == 1 {
-			ixs = l[0]
-		}
+		// the concatenation of all the map's value lists: by the library call or by range + append onto an empty slice
+		ixs := c14ConcatOfMap(dg.Body, byArch)
 		sortBy := "other"
 		ast.Inspect(dg.Body, func(n ast.Node) bool {
 			c, ok := n.(*ast.CallExpr)
